@@ -43,17 +43,23 @@ def run(pid, mod, program, chk, repo, extra):
             for name, r in sorted(res.items()):
                 if r.get(pid, {}).get("rc") != 1:
                     continue
+                mp = os.path.join(VERIF, "seeded", name, "meta.json")
+                if os.path.exists(mp) and json.load(open(mp)).get("property") != pid:
+                    continue  # only the changes aimed at this property are its regression set (plus the self-tests)
                 path = os.path.join(VERIF, "seeded", name, "patch.diff")
                 if not os.path.exists(path):
                     path = os.path.join(VERIF, "selftest", name + ".diff")
                 if not os.path.exists(path):
                     continue
-                p = subprocess.run([sys.executable, os.path.join(VERIF, "policy", "variant.py"), path, pid], capture_output=True, text=True)
+                p = subprocess.run([sys.executable, os.path.join(VERIF, "policy", "variant.py"), path, pid], capture_output=True, text=True, env=dict(os.environ, SVGDX_VARIANT_NO_FALLBACK="1"))
+                if p.returncode == 3:
+                    tested.append(dict(change=name, fired=None, keys=["patch does not apply to the current tree: skipped"]))
+                    continue
                 fired = f"{pid} rc=1" in p.stdout
                 tested.append(dict(change=name, fired=fired, keys=[l for l in p.stdout.splitlines() if l.startswith(pid)][:1]))
                 if not fired:
                     blind.append(name)
-        extra["seeded_regression"] = dict(tested=len(tested), fired=len([t for t in tested if t["fired"]]), changes=tested)
+        extra["seeded_regression"] = dict(tested=len([t for t in tested if t["fired"] is not None]), fired=len([t for t in tested if t["fired"]]), skipped=len([t for t in tested if t["fired"] is None]), changes=tested)
         if blind:
             for b in blind:
                 print(f"SELFTEST-BLIND property={pid} change={b}: a seeded change this check used to catch no longer produces a violation")
